@@ -91,6 +91,13 @@ def exec_and_judge(P, ctx, cases, tag):
             shutil.copyfileobj(src, out)
         break
     ctx.setdefault("hangs", {})[tag] = hangs
+    if tag == "main":
+        # cases the harness could not run because a verification accessor no longer fits the implementation
+        with open(tpath) as f:
+            nun = sum(1 for line in f if '"ev":"unavailable"' in line)
+        ctx["unavailable_cases"] = nun
+        if nun * 2 > len(cases):
+            raise Infra("the verification accessors (build tag verif) do not fit this implementation: %d of %d cases could not be run" % (nun, len(cases)))
     nsh = P.get("shards", {}).get(ctx["tier"], 1) if tag == "main" else 1
     t = P["trace"]
     rejects, r = core.judge_sharded(ctx["sdir"], t[0], t[1], tpath, ctx["work"], nsh, timeout=ctx["timeout"])
@@ -243,7 +250,7 @@ def run_property(P, tier, seed, replay=None):
                    evaluations=len(cases), distinct_nontrivial=len(nontriv), rule=P.get("rule", ""),
                    samples=samples, exhaustive=bool(P.get("exhaustive", False)),
                    trace_events=jr.get("events", 0), classes=classes, tlc_runs=ctx["tlc_runs"],
-                   cases_from_tlc=ctx.get("n_tlc_cases", 0), cases_random=ctx.get("n_rand_cases", 0), cases_from_repository_tests=ctx.get("n_corpus_cases", 0),
+                   cases_from_tlc=ctx.get("n_tlc_cases", 0), cases_random=ctx.get("n_rand_cases", 0), cases_from_repository_tests=ctx.get("n_corpus_cases", 0), cases_not_run_accessor_unavailable=ctx.get("unavailable_cases", 0),
                    rejected_cases=len({c for c, _, _ in confirmed}),
                    known_findings={s: n for s, (k, n) in findings.items()},
                    checker_cmd="tlc (tla2tools 1.8.0) " + "; ".join(r["cmd"] for r in ctx["tlc_runs"][:3]))
